@@ -69,8 +69,25 @@ impl BlobHash {
         };
         let mut buf = Vec::with_capacity(HASH_SIZE * 2);
 
-        for component in [first, second, third] {
+        // Only the layout produced by `relative_path` denotes a blob: 2 + 2 + 60 lowercase hex
+        // digits. A file whose components merely concatenate to 64 hex digits (split at other
+        // positions, or upper-case) lives at a path no hash maps to; treating it as a blob would
+        // report it under a hash whose real path is elsewhere (hiding a missing blob or naming
+        // an orphan that clean-up cannot remove) instead of as an invalid file.
+        let expected_lens = [2, 2, HASH_SIZE * 2 - 4];
+        for (component, expected_len) in [first, second, third].into_iter().zip(expected_lens) {
             let component = component.as_os_str().as_encoded_bytes();
+            if component.len() != expected_len {
+                return Err(TypesError::InvalidHashFormat(hex::FromHexError::InvalidStringLength));
+            }
+            if let Some(index) =
+                component.iter().position(|b| !matches!(b, b'0'..=b'9' | b'a'..=b'f'))
+            {
+                return Err(TypesError::InvalidHashFormat(hex::FromHexError::InvalidHexCharacter {
+                    c: char::from(component[index]),
+                    index: buf.len() + index,
+                }));
+            }
             buf.extend_from_slice(component);
         }
 
